@@ -87,7 +87,7 @@ def drive_fx(args):
     seed, i, tier = args
     rng = rng_for(seed, f'c02fx-{i}')
     linear = i % 3 == 0
-    a = AG.gen_fx_recursive(rng, linear=linear, max_q=None if i % 7 == 6 else 0.95, patterned=(i % 4 == 1))
+    a = AG.gen_fx_recursive(rng, linear=linear, max_q=None if i % 7 == 6 else 0.95, patterned=(i % 4 == 1), mutual=(i % 6 == 5))
     runs = []
     combos = []
     for kind in ('real', 'log'):
